@@ -21,6 +21,19 @@ Streams
   g2      photon-number statistics of one emitter (identity circuit): g2 = 1 - purity
   hom     50:50 beam splitter, input |1,1>: visibility of the coincidence dip = indistinguishability
   bad     malformed Source(...) arguments / wrong input length: exception class vs model
+  hist    histories on ONE long-lived Source (constructed with defaults or with arguments) held by 0, 1 or 2
+          long-lived Samplers (attached at construction or through Sampler.source; the two consumers may have
+          different inputs / backends): purity, brightness, indistinguishability, probability_threshold are
+          re-assigned through the property setters between uses, one or several at a time, in any order, in every
+          direction (perfect -> imperfect, imperfect -> perfect, imperfect -> other imperfect, brightness /
+          threshold only), passed as float / int / numpy scalar; steps without any observation, consumers that skip
+          a setting, repeated use without change, rejected assignments (must change nothing), Sampler.source
+          replaced by a new object.  After EVERY step the long-lived objects are judged at the CURRENT settings:
+          attributes read back; check_number / input statistics = those of a new Source of the same settings,
+          normalised, count = number of partitions; Sampler.probability_distribution = independent mixture
+          reference = new Sampler with a new Source, perfect = ideal, g2 = 1 - purity (one emitter), HOM
+          visibility = indistinguishability (50:50 splitter); and against the exact model (stateless: called with
+          the current parameters).  A directed corpus (hist_corpus) runs first.
 """
 
 from __future__ import annotations
@@ -64,6 +77,7 @@ THR = [F(0)] * 5 + [F(1, 100), F(1, 20), F(1, 7), F(1, 3), F(9, 10)]
 # statistics and the Sampler then fails inside multimethod (DispatchError).  True = such cases are
 # generated and judged (a directed one on every run); False = they are skipped and counted.
 INCLUDE_OVER_THRESHOLD = True
+N_HIST_QUICK = 70  # random histories at quick tier (the directed ones of hist_corpus() always run first)
 
 
 # --------------------------------------------------------------------------- parameters
@@ -555,11 +569,539 @@ def run_bad(ctx: Ctx, case: dict) -> list[str]:
     return []
 
 
+# --------------------------------------------------------------------------- history stream
+#
+# One long-lived Source (and one or two long-lived Samplers holding it) is taken through a sequence
+# of steps; after every step the observables of the long-lived objects are judged against the
+# property's clauses AT THE CURRENT SETTINGS (independent mixture reference, special settings, g2, HOM),
+# against freshly constructed objects with the same current settings, and against the exact model.
+#
+#   case = {"kind": "hist", "prog": .., "ctor": "default" | "kwargs", "init": par,
+#           "samplers": [{"backend": b, "input": [..], "attach": "ctor" | "setter"}, ..]   (0, 1 or 2),
+#           "state": [..]                 state for check_number (no heralds added),
+#           "steps": [step, ..]}
+#   step = {"op": "set", "set": [[key, "p/q", form], ..], "use": [sampler indices], "stats": bool, ["via": i]}
+#              key in nu|x|q|thr (assigned in the listed order through the property setters),
+#              form in float|int|np (how the value is passed); an empty "set" is a pure repeated use;
+#              via = i: assigned as  sampler_i.source.<attr> = v  instead of  src.<attr> = v
+#        | {"op": "bad", "attr": .., "value": BAD value, "use": .., "stats": ..}   rejected assignment
+#        | {"op": "replace", "par": par, "use": .., "stats": ..}   Sampler.source = Source(**par); the
+#              new object is the long-lived one from then on
+
+ATTR = {"nu": "brightness", "x": "purity", "q": "indistinguishability", "thr": "probability_threshold"}
+PERFECT = {"nu": "1", "x": "0", "q": "1", "thr": "0"}
+# values that no attribute accepts, plus values only purity rejects
+BAD_ANY = [{"t": "str"}, {"t": "none"}, {"t": "bool", "v": True}, {"t": "bool", "v": False}, {"t": "nan"},
+           {"t": "num", "v": "-1/10"}, {"t": "num", "v": "3/2"}]
+BAD_PURITY = [{"t": "num", "v": "1/2"}, {"t": "num", "v": "3/10"}, {"t": "num", "v": "0"}]
+# 50:50 splitter with Gaussian-rational entries (|u_ij|^2 = 1/2 exactly): the Hong-Ou-Mandel shape
+HOM_PROG = [["new", "c1", 2], ["unitary", "u1", [["1/2,1/2", "1/2,-1/2"], ["1/2,-1/2", "1/2,1/2"]]],
+            ["add", "c1", "u1", 0, False]]
+WIRE_PROG = [["new", "c1", 1]]
+
+
+def tri_prog(lossy: bool) -> list:
+    prog = [["new", "c1", 3], cg.op_bs("c1", 0, 1, F(3, 5), F(4, 5)), cg.op_bs("c1", 1, 2, F(4, 5), F(3, 5))]
+    if lossy:
+        prog.append(cg.op_loss("c1", 1, F(4, 5), F(3, 5)))
+    return prog
+
+
+def attr_value(key: str, f: F, form: str = "float"):
+    v = {"nu": float(f), "x": purity_of(f), "q": float(f * f), "thr": float(f)}[key]
+    if form == "int" and v in (0.0, 1.0):
+        return int(v)
+    if form == "np":
+        return np.float64(v)
+    return v
+
+
+def exact_attr(key: str, f: F) -> F:
+    return {"nu": f, "x": 1 - 2 * f / (1 + f) ** 2, "q": f * f, "thr": f}[key]
+
+
+def is_basic(par: dict) -> bool:
+    return F(par["x"]) == 0 and F(par["q"]) == 1
+
+
+def show_par(par: dict) -> str:
+    nu, x, q, thr = par_vals(par)
+    return (f"purity={purity_of(x)!r}, brightness={float(nu)!r}, indistinguishability={float(q * q)!r}, "
+            f"probability_threshold={float(thr)!r}")
+
+
+def hist_script(case: dict) -> list[str]:
+    """the history as Python text (for the replay file)"""
+    out = ["c = <circuit built by case['prog']>"]
+    out.append("src = emulator.Source()" if case["ctor"] == "default" else f"src = emulator.Source({show_par(case['init'])})")
+    for i, sp in enumerate(case["samplers"]):
+        if sp["attach"] == "setter":
+            out.append(f"s{i} = emulator.Sampler(c, lw.State({sp['input']}), backend={sp['backend']!r}); s{i}.source = src")
+        else:
+            out.append(f"s{i} = emulator.Sampler(c, lw.State({sp['input']}), source=src, backend={sp['backend']!r})")
+    for k, st in enumerate(case["steps"]):
+        if st["op"] == "set":
+            tgt = "src" if st.get("via") is None else f"s{st['via']}.source"
+            for key, val, form in st["set"]:
+                out.append(f"{tgt}.{ATTR[key]} = {attr_value(key, F(val), form)!r}")
+        elif st["op"] == "bad":
+            out.append(f"src.{ATTR[st['attr']]} = {py_val(st['value'])!r}   # must be rejected and change nothing")
+        else:
+            out.append(f"src = emulator.Source({show_par(st['par'])}); " + "; ".join(f"s{i}.source = src" for i in range(len(case["samplers"]))))
+        obs = [f"s{i}.probability_distribution" for i in st["use"]] + ([f"src.check_number(lw.State({case['state']}))"] if st["stats"] else [])
+        out.append(f"observe[{k}]: " + (", ".join(obs) or "-"))
+    return out
+
+
+def stats_plain(stats: dict) -> dict:
+    return {str(k): float(v) for k, v in stats.items()}
+
+
+def dist_diff(a: dict, b: dict, tol: float):
+    for s in set(a) | set(b):
+        if abs(a.get(s, 0.0) - b.get(s, 0.0)) > tol:
+            return s
+    return None
+
+
+def hist_observe(ctx: Ctx, case: dict, c, r: Ref, src, samplers: list, step: dict, cur: dict, memo: dict, where: str) -> list[str]:
+    """judge the observables of the long-lived objects at the current settings `cur`"""
+    probs = check_par(cur)
+    if probs:
+        return probs
+    nu, x, q, thr = par_vals(cur)
+    eps = get_eps()
+    pkey = (cur["nu"], cur["x"], cur["q"], cur["thr"])
+    # the attributes read back what was last (successfully) assigned
+    for key, a in ATTR.items():
+        got = getattr(src, a)
+        want = attr_value(key, F(cur[key]))
+        if isinstance(got, bool) or got != want:
+            probs.append(f"oracle: {where}: Source.{a} reads {got!r}, last value assigned {want!r}")
+    if probs:
+        return probs
+
+    def reference(full_in: list[int]):
+        k = ("ref", tuple(full_in), pkey)
+        if k not in memo:
+            memo[k] = apply_thr(ref_inputs(full_in, nu, x, q), thr)
+        return memo[k]
+
+    # ---- input statistics of the long-lived Source
+    if step["stats"]:
+        st = case["state"]
+        ref, amb = reference(st)
+        try:
+            n_ll = src.check_number(lw.State(st))
+            stats_ll = stats_plain(src._build_statistics(lw.State(st)))  # read-only diagnostic accessor
+            err_ll = None
+        except Exception as e:  # noqa: BLE001
+            err_ll = exc_class(e)
+        fresh = make_source(cur)
+        try:
+            n_fr = fresh.check_number(lw.State(st))
+            stats_fr = stats_plain(fresh._build_statistics(lw.State(st)))
+            err_fr = None
+        except Exception as e:  # noqa: BLE001
+            err_fr = exc_class(e)
+        fresh_msg = None
+        if err_ll != err_fr:
+            fresh_msg = (f"oracle: {where}: check_number({st}) on the re-assigned Source {'raises ' + err_ll if err_ll else 'returns ' + str(n_ll)}, "
+                         f"on a new Source({show_par(cur)}) {'raises ' + err_fr if err_fr else 'returns ' + str(n_fr)}")
+        elif err_ll is None and (n_ll != n_fr or set(stats_ll) != set(stats_fr) or dist_diff(stats_ll, stats_fr, 1e-12) is not None):
+            fresh_msg = (f"oracle: {where}: input statistics of {st} from the re-assigned Source ({n_ll} inputs) differ from those of a new "
+                         f"Source({show_par(cur)}) ({n_fr} inputs): the source does not follow its current settings")
+        if amb:
+            ctx.count("ambiguous_source_threshold")
+        elif ref is None and not INCLUDE_OVER_THRESHOLD:
+            ctx.count("skipped:threshold_removes_all")
+        elif ref is None:
+            ctx.count("hist:threshold_removes_all")
+            if err_ll != "ValueError":
+                probs.append(f"oracle: {where}: probability_threshold={float(thr)} removes every input of {st}; the source must reject it "
+                             f"(ValueError); the re-assigned Source {'raises ' + err_ll if err_ll else 'returns ' + str(n_ll) + ' inputs'}")
+        elif err_ll:
+            probs.append(f"oracle: {where}: check_number raised {err_ll} on a valid source/state")
+        else:
+            tot = sum(stats_ll.values())
+            if abs(tot - 1) > 1e-9:
+                probs.append(f"oracle: {where}: input statistics sum to {tot!r}")
+            if any(p < 0 for p in stats_ll.values()):
+                probs.append(f"oracle: {where}: negative input probability")
+            if (not is_basic(cur) or nu > 0) and n_ll != len(ref):
+                probs.append(f"oracle: {where}: check_number = {n_ll} with {show_par(cur)}, but {len(ref)} distinct photon partitions of "
+                             f"{st} have positive probability")
+        if fresh_msg:
+            probs.append(fresh_msg)
+        if not amb and (ref is not None or INCLUDE_OVER_THRESHOLD):
+            k = ("mstats", tuple(st), pkey)
+            if k not in memo:
+                memo[k] = ctx.model.call({"op": "c06", "what": "stats", "state": st, **par_req(cur)})
+            m = memo[k]
+            if "error_class" in m:
+                if err_ll != m["error_class"] and not probs:
+                    probs.append(f"corr: {where}: check_number impl={err_ll or n_ll} model={m['error_class']}")
+            elif err_ll:
+                if not probs:
+                    probs.append(f"corr: {where}: check_number impl raised {err_ll}, model n={m['n']}")
+            elif n_ll != m["n"]:
+                probs.append(f"corr: {where}: check_number impl={n_ll} model={m['n']}")
+        if probs:
+            return probs
+
+    # ---- distributions of the long-lived Samplers
+    for i in step["use"]:
+        if i >= len(samplers):
+            continue
+        sp = case["samplers"][i]
+        b, inp = sp["backend"], sp["input"]
+        tag = f"{where}, sampler {i} [{b}] input {inp}"
+        full_in = fg.add_heralds(inp, c.heralds["input"])
+        inputs, amb = reference(full_in)
+        try:
+            d = {tuple(s.s): float(p) for s, p in samplers[i].probability_distribution.items()}
+            err = None
+        except Exception as e:  # noqa: BLE001
+            d, err = None, exc_class(e)
+        try:
+            fr = impl_dist(c, inp, make_source(cur), b)
+            ferr = None
+        except Exception as e:  # noqa: BLE001
+            fr, ferr = None, exc_class(e)
+        if err != ferr:
+            probs.append(f"oracle: {tag}: the long-lived Sampler {'raises ' + err if err else 'returns a distribution'}, a new Sampler with a new "
+                         f"Source({show_par(cur)}) {'raises ' + ferr if ferr else 'returns a distribution'}")
+            return probs
+        if amb:
+            ctx.count("ambiguous_source_threshold")
+        if inputs is None and not amb:
+            if not INCLUDE_OVER_THRESHOLD:
+                ctx.count("skipped:threshold_removes_all")
+                continue
+            ctx.count("hist:threshold_removes_all")
+            if err != "ValueError":
+                probs.append(f"oracle: {tag}: probability_threshold={float(thr)} removes every source input of {full_in}; must be rejected "
+                             f"(ValueError); the long-lived Sampler {'raises ' + err if err else 'returns a distribution'}")
+                return probs
+        elif err and not amb:
+            probs.append(f"oracle: {tag}: Sampler.probability_distribution raised {err} on a valid configuration ({show_par(cur)})")
+            return probs
+        if d is not None:
+            slack = 0.0
+            if inputs is not None and not amb:
+                k = ("mix", tuple(full_in), pkey)
+                if k not in memo:
+                    memo[k] = r.mixture(inputs)
+                ref = memo[k]
+                slack = r.dropped * max(1, len(full_in)) * 2
+                if slack:
+                    ctx.count("backend_truncation_active")
+                tot = sum(d.values())
+                if any(p < -1e-15 for p in d.values()):
+                    probs.append(f"oracle: {tag}: negative probability")
+                if not (1 - 1e-9 - slack <= tot <= 1 + 1e-9):
+                    probs.append(f"oracle: {tag}: output distribution sums to {tot!r}")
+                s = dist_diff(d, ref, 1e-9 + slack)
+                if s is not None:
+                    same = "the same" if dist_diff(d, fr, 1e-9 + slack) is None else f"{fr.get(s, 0.0):.10g}"
+                    probs.append(f"oracle: {tag}: with the source now set to {show_par(cur)}, P{list(s)} = {d.get(s, 0.0):.10g} but the mixture "
+                                 f"over per-photon emission outcomes of the independent group distributions gives {ref.get(s, 0.0):.10g} "
+                                 f"(a new Sampler with a new Source of these settings gives {same})")
+                if probs:
+                    return probs
+                # special settings, evaluated on the long-lived objects
+                if thr == 0 and nu == 1 and x == 0 and q == 1:
+                    ctx.count("clause:perfect_reduces_to_ideal")
+                    ideal = r.group(tuple(full_in))
+                    s = dist_diff(d, ideal, 1e-9 + slack)
+                    if s is not None:
+                        probs.append(f"oracle: {tag}: source set (back) to perfect: P{list(s)} = {d.get(s, 0.0):.10g}, ideal source "
+                                     f"{ideal.get(s, 0.0):.10g}")
+                        return probs
+                if thr == 0 and nu > 0 and c.n_modes == 1 and full_in == [1] and r.nl == 0:
+                    ctx.count("clause:g2_on_long_lived")
+                    p1, p2 = d.get((1,), 0.0), d.get((2,), 0.0)
+                    g2 = 2 * p2 / (p1 + 2 * p2) ** 2
+                    if abs(g2 - (1 - purity_of(x))) > 1e-9:
+                        probs.append(f"oracle: {tag}: g2 of the emitted photon-number statistics = {g2!r}, 1 - purity = {1 - purity_of(x)!r}")
+                        return probs
+                if thr == 0 and x == 0 and nu > 0 and c.n_modes == 2 and full_in == [1, 1] and \
+                        r.group((1, 1)).get((1, 1), 0.0) < 1e-12:
+                    k0 = ("mix0", pkey)
+                    if k0 not in memo:
+                        memo[k0] = r.mixture(ref_inputs(full_in, nu, x, F(0))).get((1, 1), 0.0)
+                    pc0 = memo[k0]
+                    if pc0 > 1e-6:
+                        ctx.count("clause:hom_on_long_lived")
+                        vis = 1 - d.get((1, 1), 0.0) / pc0
+                        if abs(vis - float(q * q)) > 1e-9 / pc0:
+                            probs.append(f"oracle: {tag}: Hong-Ou-Mandel visibility = {vis!r}, indistinguishability = {float(q * q)!r}")
+                            return probs
+            s = dist_diff(d, fr, 1e-9 + slack)
+            if s is not None:
+                probs.append(f"oracle: {tag}: P{list(s)} = {d.get(s, 0.0):.10g} on the long-lived Sampler, {fr.get(s, 0.0):.10g} on a new Sampler "
+                             f"with a new Source({show_par(cur)}): the result does not follow the current settings")
+                return probs
+        if amb:
+            continue
+        # correspondence with the exact model at the current settings
+        k = ("mdist", tuple(inp), b, pkey)
+        if k not in memo:
+            memo[k] = ctx.model.call({"op": "c06", "what": "dist", "prog": case["prog"], "id": "c1", "input": inp, "backend": b,
+                                      "eps": frac_str(eps), **par_req(cur)})
+        m = memo[k]
+        if "error_class" in m:
+            if err != m["error_class"]:
+                probs.append(f"corr: {tag}: model rejects the configuration ({m['error_class']}), implementation: {err or 'accepts'}")
+                return probs
+            continue
+        if err:
+            probs.append(f"corr: {tag}: implementation raised {err}, model accepts")
+            return probs
+        md = {tuple(s): F(p) for s, p in m["pdist"]}
+        ex = {tuple(s): F(p) for s, p in m["pdist_exact"]}
+        for s in set(d) | set(md) | set(ex):
+            pi = d.get(s, 0.0)
+            lo = float(min(md.get(s, 0), ex.get(s, 0)))
+            hi = float(max(md.get(s, 0), ex.get(s, 0)))
+            if not (lo - 1e-9 <= pi <= hi + 1e-9):
+                probs.append(f"corr: {tag}: P{list(s)} impl={pi:.12g} model={float(md.get(s, 0)):.12g} (untruncated {float(ex.get(s, 0)):.12g})")
+                return probs
+    return probs
+
+
+def run_hist(ctx: Ctx, case: dict) -> list[str]:
+    pool = fg.build_impl(case["prog"])
+    c = pool.get("c1")
+    if c is None:
+        return []
+    if any(c.input_modes != len(sp["input"]) for sp in case["samplers"]):
+        return []  # shrinking changed the circuit's input size: not a case
+    cur = dict(case["init"])
+    probs = check_par(cur)
+    if probs:
+        return probs
+    src = emulator.Source() if case["ctor"] == "default" else make_source(cur)
+    samplers = []
+    for sp in case["samplers"]:
+        if sp["attach"] == "setter":
+            s = emulator.Sampler(c, lw.State(sp["input"]), backend=sp["backend"])
+            s.source = src
+        else:
+            s = emulator.Sampler(c, lw.State(sp["input"]), source=src, backend=sp["backend"])
+        samplers.append(s)
+    r = Ref(c, float(get_eps()))
+    memo: dict = {}
+    for k, step in enumerate(case["steps"]):
+        where = f"step {k}"
+        if step["op"] == "set":
+            via = step.get("via")
+            target = samplers[via].source if via is not None and via < len(samplers) else src
+            for key, val, form in step["set"]:
+                v = attr_value(key, F(val), form)
+                try:
+                    setattr(target, ATTR[key], v)
+                except Exception as e:  # noqa: BLE001
+                    return [f"oracle: {where}: assigning the valid value {v!r} to Source.{ATTR[key]} raised {exc_class(e)}"]
+                cur[key] = val
+            where += " after " + (", ".join(f"{ATTR[key]} = {attr_value(key, F(val), form)!r}" for key, val, form in step["set"]) or "no change")
+            if via is not None and step["set"]:
+                where += f" (assigned through sampler {via}.source)"
+        elif step["op"] == "bad":
+            a, bv = step["attr"], step["value"]
+            try:
+                setattr(src, ATTR[a], py_val(bv))
+                impl = "ok"
+            except Exception as e:  # noqa: BLE001
+                impl = exc_class(e)
+            names = {"x": "purity", "nu": "brightness", "q": "indist", "thr": "thr"}
+            req = {names[key]: frac_str(exact_attr(key, F(cur[key]))) for key in ATTR}
+            req[names[a]] = drv_val(bv)
+            mod = ctx.model.call({"op": "c06", "what": "validate", **req}).get("error_class", "ok")
+            ctx.count("hist:rejected:" + mod)
+            if impl != mod:
+                return [f"corr: {where}: Source.{ATTR[a]} = {py_val(bv)!r} impl={impl} model={mod}"]
+            if mod == "ok":
+                return []  # not a rejected assignment (never generated)
+            where += f" after the rejected assignment {ATTR[a]} = {py_val(bv)!r}"
+        else:
+            cur = dict(step["par"])
+            src = make_source(cur)
+            for s in samplers:
+                s.source = src
+            where += " after Sampler.source = new Source"
+        probs = hist_observe(ctx, case, c, r, src, samplers, step, cur, memo, where)
+        if probs:
+            return probs
+    return probs
+
+
+def gen_steps(rng, init: dict, nsamp: int, n_steps: int) -> list[dict]:
+    cur = dict(init)
+    steps: list[dict] = []
+    grids = {"nu": NU, "x": X, "q": QS, "thr": THR}
+
+    def other(key):
+        for _ in range(20):
+            v = frac_str(rng.choice(grids[key]))
+            if v != cur[key]:
+                return v
+        return cur[key]
+
+    def form():
+        return rng.choice(["float", "float", "float", "int", "np"])
+
+    for k in range(n_steps):
+        use = [i for i in range(nsamp) if rng.random() < 0.8]
+        stats = rng.random() < 0.5 or nsamp == 0
+        if k == n_steps - 1:
+            use, stats = list(range(nsamp)), True
+        r0 = rng.random()
+        if k == 0 and r0 < 0.5:
+            steps.append({"op": "set", "set": [], "use": use, "stats": stats})  # use before any change
+            continue
+        if r0 < 0.08:
+            a = rng.choice(list(ATTR))
+            steps.append({"op": "bad", "attr": a, "value": rng.choice(BAD_ANY + (BAD_PURITY if a == "x" else [])), "use": use,
+                          "stats": stats})
+            continue
+        if r0 < 0.14 and nsamp:
+            cur = gen_par(rng) if rng.random() < 0.7 else dict(PERFECT)
+            steps.append({"op": "replace", "par": dict(cur), "use": use, "stats": stats})
+            continue
+        if r0 < 0.24:  # repeated use without any change
+            steps.append({"op": "set", "set": [], "use": use if rng.random() < 0.5 else list(range(nsamp)), "stats": stats})
+            continue
+        r1 = rng.random()
+        sets = []
+        if r1 < 0.25 and not is_basic(cur):  # (back) to perfect purity / indistinguishability
+            keys = [key for key in ("x", "q") if cur[key] != PERFECT[key]]
+            if rng.random() < 0.5:
+                keys += [key for key in ("nu", "thr") if cur[key] != PERFECT[key]]
+            rng.shuffle(keys)
+            sets = [[key, PERFECT[key], form()] for key in keys]
+        elif r1 < 0.65:  # a single attribute
+            key = rng.choice(["nu", "x", "q", "thr", "x", "q"])
+            sets = [[key, other(key), form()]]
+        else:  # several attributes, in random order; an attribute may be assigned twice
+            keys = rng.sample(list(ATTR), rng.randint(2, 4))
+            if rng.random() < 0.2:
+                keys.append(rng.choice(keys))
+            sets = [[key, other(key), form()] for key in keys]
+        for key, val, _ in sets:
+            cur[key] = val
+        step = {"op": "set", "set": sets, "use": use, "stats": stats}
+        if nsamp and rng.random() < 0.25:
+            step["via"] = rng.randrange(nsamp)
+        steps.append(step)
+    return steps
+
+
+def gen_hist(ctx: Ctx, rng):
+    cap = 4 if ctx.thorough else 3  # purity may drop below 1 at any step: every photon may bring a noise photon
+    r0 = rng.random()
+    if r0 < 0.15:
+        prog, inp = HOM_PROG, [1, 1]
+    elif r0 < 0.22:
+        prog, inp = WIRE_PROG, rng.choice([[1], [1], [2]])
+    elif r0 < 0.30:
+        prog = tri_prog(rng.random() < 0.5)
+        inp = fg.rand_state(rng, 3, rng.choice([1, 2, 2, 3]))
+    else:
+        prog = fg.gen_circuit(ctx, rng, max_depth=2, max_n=4, max_herald_photons=1)
+        inp = None
+    pool = fg.build_impl(prog)
+    c = pool.get("c1")
+    if c is None or c.input_modes == 0 or np.array(c.U_full).shape[0] > 8:
+        return None
+    hp = fg.herald_photons(c)
+    if hp > cap - 1:
+        return None
+    if inp is None:
+        inp = fg.rand_state(rng, c.input_modes, max(0, min(rng.choice([1, 2, 2, 3, 3]), cap - hp)))
+    init = dict(PERFECT) if rng.random() < 0.45 else gen_par(rng)
+    ctor = "default" if init == PERFECT and rng.random() < 0.6 else "kwargs"
+    ns = rng.choice([0, 1, 1, 2, 2, 2])
+    samplers = []
+    for i in range(ns):
+        inp_i = inp
+        if i == 1 and rng.random() < 0.5:  # the second consumer of the shared Source has its own input
+            inp_i = fg.rand_state(rng, c.input_modes, max(0, min(rng.choice([1, 2, 3]), cap - hp)))
+        samplers.append({"backend": rng.choice(["permanent", "slos"]), "input": inp_i,
+                         "attach": "setter" if rng.random() < 0.2 else "ctor"})
+    if ns == 2 and samplers[0]["input"] == samplers[1]["input"] and rng.random() < 0.7:
+        samplers[1]["backend"] = "slos" if samplers[0]["backend"] == "permanent" else "permanent"
+    state = fg.add_heralds(inp, c.heralds["input"]) if rng.random() < 0.6 else gen_state(rng, 5, 3)
+    steps = gen_steps(rng, init, ns, rng.randint(2, 5))
+    return {"kind": "hist", "prog": prog, "ctor": ctor, "init": init, "samplers": samplers, "state": state, "steps": steps,
+            "photons": max([sum(sp["input"]) for sp in samplers] + [0]) + hp}
+
+
+def hist_corpus() -> list[dict]:
+    """directed histories that always run first"""
+    def st(sets, use=(0, 1), stats=True):
+        return {"op": "set", "set": [[k, v, "float"] for k, v in sets], "use": list(use), "stats": stats}
+
+    both = [{"backend": "permanent", "input": [1, 1], "attach": "ctor"}, {"backend": "slos", "input": [1, 1], "attach": "ctor"}]
+    out = []
+    # Hong-Ou-Mandel sweep on a default Source held by two Samplers: perfect -> imperfect -> other imperfect -> 0 -> perfect -> imperfect
+    out.append({"kind": "hist", "prog": HOM_PROG, "ctor": "default", "init": dict(PERFECT), "samplers": both, "state": [1, 1],
+                "steps": [st([]), st([["q", "3/5"]]), st([["q", "1/2"]]), st([["q", "0"]]), st([["q", "1"]]), st([["q", "9/10"]])],
+                "photons": 2})
+    # the same sweep, the Samplers never used before the first assignment
+    out.append({"kind": "hist", "prog": HOM_PROG, "ctor": "default", "init": dict(PERFECT), "samplers": both, "state": [1, 1],
+                "steps": [st([["q", "3/5"]]), st([["q", "1"]]), st([["q", "1/3"]])], "photons": 2})
+    # g2 sweep on one emitter: purity and brightness assigned after construction, back to perfect, imperfect again
+    one = [{"backend": "permanent", "input": [1], "attach": "ctor"}, {"backend": "slos", "input": [1], "attach": "setter"}]
+    out.append({"kind": "hist", "prog": WIRE_PROG, "ctor": "default", "init": dict(PERFECT), "samplers": one, "state": [1],
+                "steps": [st([["x", "1/10"]]), st([["x", "1/3"], ["nu", "3/4"]]), st([["x", "0"]]), st([["nu", "1/2"], ["x", "1/20"]])],
+                "photons": 1})
+    # probability_threshold alone re-assigned on used Samplers: prunes one input, none, all (rejected), none
+    out.append({"kind": "hist", "prog": HOM_PROG, "ctor": "kwargs", "init": {"nu": "3/4", "x": "0", "q": "1", "thr": "0"},
+                "samplers": both, "state": [1, 1],
+                "steps": [st([]), st([["thr", "1/7"]]), st([["thr", "0"]]), st([["thr", "9/10"]]), st([["thr", "1/20"]])], "photons": 2})
+    # brightness alone re-assigned on a used imperfect source, incl. the boundaries 0 and 1
+    out.append({"kind": "hist", "prog": tri_prog(True), "ctor": "kwargs", "init": {"nu": "1", "x": "1/10", "q": "3/5", "thr": "0"},
+                "samplers": [{"backend": "permanent", "input": [1, 0, 1], "attach": "ctor"}], "state": [1, 0, 1],
+                "steps": [st([], [0]), st([["nu", "1/2"]], [0]), st([["nu", "0"]], [0]), st([["nu", "1"]], [0])], "photons": 2})
+    # shared Source, two consumers with different inputs; one of them skips the intermediate settings
+    two = [{"backend": "slos", "input": [1, 1, 0], "attach": "ctor"}, {"backend": "permanent", "input": [0, 2, 1], "attach": "ctor"}]
+    out.append({"kind": "hist", "prog": tri_prog(False), "ctor": "kwargs", "init": {"nu": "9/10", "x": "1/20", "q": "9/10", "thr": "0"},
+                "samplers": two, "state": [2, 0, 1],
+                "steps": [st([]), st([["x", "0"], ["q", "1"]], [1], False), st([["q", "1/2"], ["x", "1/3"]], [1], False),
+                          st([["x", "1/20"], ["q", "9/10"]]), st([["q", "1"], ["x", "0"], ["nu", "1"]])], "photons": 3})
+    # shared Source, two consumers on the SAME backend with different inputs, every setting used twice by both; one assignment
+    # made through the second consumer's handle
+    same = [{"backend": "permanent", "input": [1, 1, 0], "attach": "ctor"}, {"backend": "permanent", "input": [0, 1, 1], "attach": "ctor"}]
+    out.append({"kind": "hist", "prog": tri_prog(False), "ctor": "default", "init": dict(PERFECT), "samplers": same, "state": [1, 1, 0],
+                "steps": [st([]), st([]), st([["q", "1/2"]]), st([]), {**st([["x", "1/10"], ["q", "1"]]), "via": 1}, st([]),
+                          st([["x", "0"]]), st([])], "photons": 2})
+    # rejected assignments change nothing
+    def bad(a, v, use=(0,)):
+        return {"op": "bad", "attr": a, "value": v, "use": list(use), "stats": True}
+
+    out.append({"kind": "hist", "prog": HOM_PROG, "ctor": "kwargs", "init": {"nu": "3/4", "x": "1/10", "q": "3/5", "thr": "0"},
+                "samplers": both[:1], "state": [1, 1],
+                "steps": [st([], [0]), bad("x", {"t": "num", "v": "3/10"}), bad("q", {"t": "str"}), bad("nu", {"t": "num", "v": "3/2"}),
+                          bad("thr", {"t": "bool", "v": True}), bad("x", {"t": "nan"})], "photons": 2})
+    # Sampler.source re-assigned to a new object, which is then re-assigned through its setters
+    out.append({"kind": "hist", "prog": HOM_PROG, "ctor": "default", "init": dict(PERFECT), "samplers": both, "state": [1, 1],
+                "steps": [st([]), {"op": "replace", "par": dict(PERFECT), "use": [0], "stats": False}, st([["q", "3/5"]]),
+                          {"op": "replace", "par": {"nu": "1/2", "x": "1/10", "q": "1/2", "thr": "0"}, "use": [0, 1], "stats": True},
+                          st([["x", "0"], ["q", "1"]])], "photons": 2})
+    # the Source alone (check_number), states with gaps and bunching
+    out.append({"kind": "hist", "prog": WIRE_PROG, "ctor": "default", "init": dict(PERFECT), "samplers": [], "state": [1, 0, 0, 2],
+                "steps": [st([], []), st([["x", "1/10"]], []), st([["x", "0"], ["q", "1/2"]], []), st([["q", "1"]], []),
+                          st([["nu", "1/2"], ["thr", "1/20"], ["q", "3/5"]], [])], "photons": 3})
+    return out
+
+
 # --------------------------------------------------------------------------- driver of the streams
 
 
 def run_case(ctx: Ctx, case: dict) -> list[str]:
-    return {"stats": run_stats, "dist": run_dist, "g2": run_g2, "hom": run_hom, "bad": run_bad}[case["kind"]](ctx, case)
+    return {"stats": run_stats, "dist": run_dist, "g2": run_g2, "hom": run_hom, "bad": run_bad,
+            "hist": run_hist}[case["kind"]](ctx, case)
 
 
 def shrink(ctx: Ctx, case: dict) -> dict:
@@ -572,6 +1114,41 @@ def shrink(ctx: Ctx, case: dict) -> dict:
         except Exception:  # noqa: BLE001
             small = case["prog"]
         return {**case, "prog": small, "shrunk": True}
+    if case["kind"] == "hist":
+        def fails(cand):
+            try:
+                return bool(run_case(ctx, cand))
+            except Exception:  # noqa: BLE001
+                return False
+
+        cur = case
+        try:
+            cur = {**cur, "steps": ddmin(cur["steps"], lambda sub: fails({**cur, "steps": sub}), max_tests=40)}
+            # one consumer instead of two
+            for i in reversed(range(len(cur["samplers"]))):
+                remap = {j: j - (j > i) for j in range(len(cur["samplers"])) if j != i}
+                cand = {**cur, "samplers": [sp for j, sp in enumerate(cur["samplers"]) if j != i],
+                        "steps": [{**{k: v for k, v in st.items() if k != "via"}, "use": [remap[j] for j in st["use"] if j in remap],
+                                   **({"via": remap[st["via"]]} if st.get("via") in remap else {})} for st in cur["steps"]]}
+                if fails(cand):
+                    cur = cand
+            # one assignment per step where that is enough; observations that are not needed
+            for k, st in enumerate(cur["steps"]):
+                if st["op"] == "set" and len(st["set"]) > 1:
+                    for sub in ([a] for a in st["set"]):
+                        cand = {**cur, "steps": cur["steps"][:k] + [{**st, "set": sub}] + cur["steps"][k + 1:]}
+                        if fails(cand):
+                            cur = cand
+                            break
+            for k, st in enumerate(cur["steps"][:-1]):
+                cand = {**cur, "steps": cur["steps"][:k] + [{**st, "use": [], "stats": False}] + cur["steps"][k + 1:]}
+                if fails(cand):
+                    cur = cand
+            small = ddmin(cur["prog"], lambda sub: cg.well_formed(sub) and fails({**cur, "prog": sub}), max_tests=40)
+            cur = {**cur, "prog": small}
+        except Exception:  # noqa: BLE001
+            pass
+        return {**cur, "shrunk": True}
     if case["kind"] == "stats":
         cur = case
         changed = True
@@ -597,14 +1174,69 @@ def report(ctx: Ctx, case: dict, probs: list[str]) -> None:
     scase = shrink(ctx, case)
     sprobs = run_case(ctx, scase) or probs
     oracle = [p for p in sprobs if p.startswith("oracle")]
+    extra = {"script": hist_script(scase)} if scase["kind"] == "hist" else {}
     if oracle:
         if "removes every" in oracle[0]:
             kind = "threshold-removes-all-inputs"
         else:
             kind = oracle[0].split(":", 1)[1].strip()[:40]
-        ctx.violation(oracle[0], {"case": scase, "problems": sprobs}, sig={"kind": kind})
+        if scase["kind"] == "hist":
+            kind = "history:" + oracle[0].split(":", 2)[-1].strip()[:40]
+        ctx.violation(oracle[0], {"case": scase, "problems": sprobs, **extra}, sig={"kind": kind})
     else:
-        ctx.disagreement(sprobs[0], {"case": scase, "problems": sprobs})
+        ctx.disagreement(sprobs[0], {"case": scase, "problems": sprobs, **extra})
+
+
+def hist_branches(ctx: Ctx, case: dict) -> bool:
+    """coverage of the history dimension; returns whether the history is non-trivial (the settings
+    change at least once and some observation is made on the annotated path)"""
+    cur = dict(case["init"])
+    ctx.count("hist:ctor_" + case["ctor"])
+    ctx.count(f"hist:samplers={len(case['samplers'])}")
+    if len(case["samplers"]) == 2:
+        ctx.count("hist:shared_source_two_samplers")
+        if case["samplers"][0]["input"] != case["samplers"][1]["input"]:
+            ctx.count("hist:shared_source_different_inputs")
+    if any(sp["attach"] == "setter" for sp in case["samplers"]):
+        ctx.count("hist:source_attached_through_Sampler.source")
+    used_before = False
+    changed = full_seen = False
+    for st in case["steps"]:
+        prev = dict(cur)
+        if st["op"] == "set":
+            for key, val, form in st["set"]:
+                cur[key] = val
+                ctx.count("hist:set:" + ATTR[key])
+                if form != "float":
+                    ctx.count("hist:value_as_" + form)
+            if st.get("via") is not None and st["set"]:
+                ctx.count("hist:assigned_through_Sampler.source")
+            if not st["set"]:
+                ctx.count("hist:repeated_use_no_change")
+            elif len(st["set"]) == 1:
+                ctx.count("hist:single_attribute_step")
+        elif st["op"] == "bad":
+            ctx.count("hist:rejected_assignment")
+        else:
+            cur = dict(st["par"])
+            ctx.count("hist:replace_source_object")
+        if cur != prev:
+            changed = True
+            a, b = ("perfect" if is_basic(prev) else "imperfect"), ("perfect" if is_basic(cur) else "imperfect")
+            ctx.count(f"hist:{a}->{b}" + ("" if used_before else "(first use after the change)"))
+            if F(cur["thr"]) != F(prev["thr"]):
+                ctx.count("hist:threshold_changed")
+        observed = bool(st["use"]) or st["stats"]
+        if observed:
+            used_before = True
+            if not is_basic(cur):
+                full_seen = True
+        else:
+            ctx.count("hist:step_without_observation")
+        if len(st["use"]) < len(case["samplers"]):
+            ctx.count("hist:a_sampler_skips_this_setting")
+    ctx.count(f"hist:steps={len(case['steps'])}")
+    return changed and full_seen
 
 
 def branches(ctx: Ctx, case: dict) -> None:
@@ -622,7 +1254,9 @@ def branches(ctx: Ctx, case: dict) -> None:
 def run(ctx: Ctx) -> None:
     ctx.rule = ("stats: states of <= 6 modes / <= 4 photons (bunched, gaps) x parameter grid x threshold; dist: circuits from "
                 "the tree generator (loss, heralds), both backends; non-trivial = >= 2 photons (incl. heralds) and a source "
-                "that is imperfect in purity or indistinguishability (annotated path); distinct = distinct case JSON")
+                "that is imperfect in purity or indistinguishability (annotated path); hist: long-lived Source / Samplers "
+                "re-assigned through setters between uses, non-trivial = the settings change and an observation is made on "
+                "the annotated path; distinct = distinct case JSON")
     rng = ctx.rng
     # self-test of the comparison code: a deliberately wrong expectation must be noticed
     t = ctx.model.call({"op": "c06", "what": "table", "nu": "1/2", "p2": "1/3", "pi": "3/5", "thr": "0"})["table"]
@@ -671,9 +1305,24 @@ def run(ctx: Ctx) -> None:
         for k in rng.sample(list(GOOD), rng.choice([1, 1, 2])):
             args[k] = rng.choice(BAD_VALUES)
         cases.append({"kind": "bad", "args": args})
+    # histories on long-lived Source / Sampler objects
+    nh = 0
+    tries = 0
+    while nh < ctx.n(N_HIST_QUICK, 400) and tries < 20000:
+        if ctx.out_of_time():
+            break
+        tries += 1
+        case = gen_hist(ctx, rng)
+        if case is None:
+            ctx.count("skipped:too_large")
+            continue
+        nh += 1
+        cases.append(case)
     # directed: the smallest configuration in which the threshold removes every input
     if INCLUDE_OVER_THRESHOLD:
         cases.insert(0, {"kind": "stats", "state": [1, 1], "par": {"nu": "1/2", "x": "0", "q": "1", "thr": "9/10"}})
+    # directed histories run first
+    cases[0:0] = hist_corpus()
     for i, case in enumerate(cases):
         probs = run_case(ctx, case)
         ctx.count("stream:" + case["kind"])
@@ -701,6 +1350,9 @@ def run(ctx: Ctx) -> None:
             nontrivial = nph >= 2 and full_path
         elif case["kind"] in ("g2", "hom"):
             nontrivial = True
+        elif case["kind"] == "hist":
+            nontrivial = hist_branches(ctx, case)
+            ctx.count(f"photons:{case['photons']}")
         ctx.case(json.dumps(case, sort_keys=True), nontrivial, sample=case if i in (1, 150) else None)
         if probs:
             report(ctx, case, probs)
